@@ -16,7 +16,7 @@ HTTP_NOTE = ("Trusted: genhost (abstract design -> public DSL calls), mkrunner/r
              "numbers, bytes, any x path/query/header/cookie/body x required/optional/default/transport-only-required x 15 rules x 20 nestings incl. query "
              "maps, MapParams, whole payloads, defaulted collections; quick: a seeded stratified sample of the shapes, thorough: all of them) plus seeded "
              "two-attribute methods (same location, twins sharing a type, parameter + cookie, two tagged responses, named payload types) whose oracle and "
-             "mechanism TLC recomputes; 
+             "mechanism TLC recomputes; "
              "verdicts come only from the behaviour of the real generated code.")
 
 claim("C01",
